@@ -883,6 +883,8 @@ def make_case(spec):
         if kind != "gen" and cls == "barelf":
             cls = "plain"
         c = gen.gen_smtp(rng, cls) if dn == "smtpd" else gen.gen_ns(rng, dn, cls)
+        if rng.random() < 0.25:
+            c["plan"] = "exit=0"          # virtual conforming queue instead of the real one
         if kind == "mut":
             w = gen.mutate_bytes(rng, gen.wire_of(c))
             c.pop("chunks", None)
